@@ -1105,6 +1105,73 @@ func CommandKeys(argv [][]byte) ([][]byte, bool) {
 			return nil, false
 		}
 		return a[2 : 2+n], true
+	case "xgroup", "xinfo", "object", "memory":
+		// container commands: the key follows the subcommand
+		if len(a) < 2 {
+			return nil, true
+		}
+		return a[1:2], true
+	case "sunionstore", "sinterstore", "sdiffstore", "pfmerge":
+		// destination followed by the source keys: every argument is a key
+		return a, true
+	case "zunionstore", "zinterstore", "zdiffstore":
+		// destination numkeys key [key ...] [WEIGHTS ...] [AGGREGATE ...]
+		if len(a) < 3 {
+			return nil, false
+		}
+		n, ok := parseInt(a[1])
+		if !ok || n < 1 || int(n) > len(a)-2 {
+			return nil, false
+		}
+		return append([][]byte{a[0]}, a[2:2+n]...), true
+	case "lmpop", "zmpop":
+		// numkeys key [key ...] LEFT|RIGHT|MIN|MAX [COUNT n]
+		if len(a) < 2 {
+			return nil, false
+		}
+		n, ok := parseInt(a[0])
+		if !ok || n < 1 || int(n) > len(a)-1 {
+			return nil, false
+		}
+		return a[1 : 1+n], true
+	case "sort":
+		// key [BY p] [LIMIT o c] [GET p ...] [ASC|DESC] [ALPHA] [STORE destination]: the key and the
+		// destination; when STORE is repeated the LAST one is the destination (sort.c / sortGetKeys)
+		if len(a) < 1 {
+			return nil, false
+		}
+		ks := [][]byte{a[0]}
+		var dest []byte
+		for i := 1; i < len(a); i++ {
+			switch lower(a[i]) {
+			case "store":
+				if i+1 < len(a) {
+					dest = a[i+1]
+					i++
+				}
+			case "by", "get":
+				i++
+			case "limit":
+				i += 2
+			}
+		}
+		if dest != nil {
+			ks = append(ks, dest)
+		}
+		return ks, true
+	case "georadius", "georadiusbymember":
+		// key ... [STORE key] [STOREDIST key]
+		if len(a) < 1 {
+			return nil, false
+		}
+		ks := [][]byte{a[0]}
+		for i := 1; i+1 < len(a); i++ {
+			if w := lower(a[i]); w == "store" || w == "storedist" {
+				ks = append(ks, a[i+1])
+				i++
+			}
+		}
+		return ks, true
 	case "ping", "multi", "exec", "select", "info", "flushall", "flushdb", "publish", "script", "function", "echo":
 		return nil, true
 	}
